@@ -31,6 +31,8 @@ REF_VARIANTS = {
     "others": [g.OTHER_REF, g.THIRD_REF],
     "parent": [g.OWNER_REF],
     "mixed": [g.OTHER_REF, g.OWNER_REF, g.THIRD_REF],
+    "stale-parent": [g.STALE_PARENT_REF],                       # same apiVersion/kind/name, another uid
+    "other+stale-parent": [g.OTHER_REF, g.STALE_PARENT_REF],
 }
 
 
@@ -77,7 +79,8 @@ def random_program(r, i: int) -> dict:
         prog["extra"][layer] = t
     if r.random() < 0.12:   # the F7 class: the target itself lists owners
         layer = r.choice(layers)
-        refs = r.choice(([g.THIRD_REF], [g.THIRD_REF, g.OTHER_REF], []))
+        refs = r.choice(([g.THIRD_REF], [g.THIRD_REF, g.OTHER_REF], [], [g.STALE_PARENT_REF],
+                         [g.OTHER_REF, g.STALE_PARENT_REF]))
         prog["extra"][layer] = g.tree_merge(prog["extra"][layer],
                                             g.node(metadata=g.node(ownerReferences=g.leaf(copy.deepcopy(refs)))))
     if r.random() < 0.03:   # `_prepare_for_api` cannot hold the annotation: nothing may be sent
@@ -317,6 +320,9 @@ def examine(ck: Check, prog: dict, b: dict, ans, label: str):
         depth_hits = sum(len(g.directive_paths(tree_val)) for tree_val in
                          [g.tree_value(t) for t in prog.get("extra", {}).values()])
         ck.count("directive-keys-in-target:" + ("0" if depth_hits == 0 else "1-3" if depth_hits <= 3 else "4+"))
+        nest = max([0] + [g.directive_in_nested_list(g.tree_value(t)) for t in prog.get("extra", {}).values()])
+        if nest:
+            ck.count(f"directive-under-lists-in-lists:depth{nest}")
         if depth_hits:
             ck.nontriv(g.dumps([prog.get("extra"), prog["namespaced"], prog["tmplForm"], label, req["method"]]))
         if len(ck.cov["samples"]) < 4 and depth_hits >= 2:
@@ -432,7 +438,9 @@ def run(tier: str) -> int:
              "at the top level; owning / non-owning, parent in the same / another / no namespace, namespaced and "
              "cluster-scoped; first reconciled against an empty cluster, then against live objects (minimal, or what "
              "the first pass created — drifted or matching) whose ownerReferences are absent | [] | null | [other] | "
-             "[other,third] | [parent] | [other,parent,third]; ~12% of targets list owners themselves (the former F7 class, "
+             "[other,third] | [parent] | [other,parent,third] | [a reference with the parent's apiVersion/kind/name but "
+             "another uid] | [other, that]; lists nested directly in lists (1-3 levels) with directive-bearing maps "
+             "inside; ~12% of targets list owners themselves (the former F7 class, "
              "whose witness corpus/C08/target_owner_refs.json is replayed first), ~3% "
              "have unusable annotations; non-trivial = the target carries directive keys and a POST or PATCH was sent; "
              "distinct by layer contents+scope+template form+live variant+method",
